@@ -597,6 +597,9 @@ func (t *fnTr) expr(e ast.Expr) string {
 			return "(g_" + g.name + " st)"
 		}
 		if lv, ok := t.locals[obj]; ok {
+			if lv.kind == "vmapn" {
+				return "(match " + lv.name + " with Some m_ => m_ | None => [] end)"
+			}
 			if lv.fields != nil {
 				return t.structValue(obj, lv)
 			}
@@ -1095,6 +1098,15 @@ func (t *fnTr) call(x *ast.CallExpr) string {
 			return "(go_flt_to_int " + t.expr(x.Args[0]) + ")"
 		}
 		t.unsupported(x, "conversion "+types.ExprString(x.Fun))
+	}
+	if se, ok := x.Fun.(*ast.SelectorExpr); ok && len(x.Args) == 0 && se.Sel.Name == "IsRegular" {
+		if mc, ok := unparen(se.X).(*ast.CallExpr); ok && len(mc.Args) == 0 {
+			if ms, ok := mc.Fun.(*ast.SelectorExpr); ok && ms.Sel.Name == "Mode" {
+				if fl := t.lvarOf(ms.X); fl != nil && fl.kind == "finfo" {
+					return fl.fields["regular"].name
+				}
+			}
+		}
 	}
 	if se, ok := x.Fun.(*ast.SelectorExpr); ok && len(x.Args) == 0 && (se.Sel.Name == "Bytes" || se.Sel.Name == "String") {
 		if wl := t.lvarOf(se.X); wl != nil && wl.kind == "writer" {
@@ -2828,6 +2840,14 @@ func (t *fnTr) stmts(list []ast.Stmt, end func() string) string {
 			t.unsupported(s, "label other than at the top level of the function body")
 		}
 		return t.stmts(append([]ast.Stmt{x.Stmt}, rest...), end)
+	case *ast.DeferStmt:
+		// defer fh.Close() on a file opened by this function: closing changes no value the function returns
+		if se, ok := x.Call.Fun.(*ast.SelectorExpr); ok && se.Sel.Name == "Close" && len(x.Call.Args) == 0 && t.handler {
+			if fl := t.lvarOf(se.X); fl != nil && fl.kind == "reader" && !fl.isState {
+				return next()
+			}
+		}
+		t.unsupported(s, "defer")
 	case *ast.DeclStmt:
 		gd, ok := x.Decl.(*ast.GenDecl)
 		if !ok || gd.Tok != token.VAR {
@@ -3207,6 +3227,10 @@ func (t *fnTr) assign(x *ast.AssignStmt, next func() string) string {
 			}
 			obj := t.p.info.Defs[id]
 			if obj == nil {
+				// v, err := f() with err declared before: an assignment to the existing variable
+				if lv, ok := t.locals[t.p.info.Uses[id]]; ok && lv.kind == kind && t.handler {
+					return lv.name
+				}
 				t.unsupported(x, "re-declaration in a two-value :=")
 			}
 			return t.newLocal(obj, id.Name, kind).name
@@ -3292,6 +3316,45 @@ func (t *fnTr) assign(x *ast.AssignStmt, next func() string) string {
 				rpat = "'(rr_, " + t.retState() + ")"
 			}
 			return t.wrap(mark, "bindr ("+fnPrefix+t.self.Name()+" fuel_ st "+strings.Join(args, " ")+")\n  (fun "+rpat+" => match rr_ with Panic => Crash | _ => let '("+va+", "+vb+") := match rr_ with Ok v => (v, None) | Err e => ("+z+", Some e) | Panic => ("+z+", None) end in\n  "+next()+" end)")
+		}
+		// fi, err := os.Stat(name) / fh, err := os.Open(name): the file system is the environment (ext_os_Stat: is it a regular
+		// file; ext_os_Open: the schedule of Read results the file delivers)
+		if c, isCall := x.Rhs[0].(*ast.CallExpr); isCall && t.handler && len(c.Args) == 1 {
+			if pk, nm, isPkg := t.pkgCall(c); isPkg && pk == "os" && (nm == "Stat" || nm == "Open") && define {
+				mark := len(t.guards)
+				arg := t.expr(c.Args[0])
+				name, typ, zero := "ext_os_Stat", "str -> (res bool)", "false"
+				if nm == "Open" {
+					name, typ, zero = "ext_os_Open", "str -> (res (list rev))", "([] : list rev)"
+				}
+				found := false
+				for _, e := range *t.externs {
+					found = found || e.name == name
+				}
+				if !found {
+					*t.externs = append(*t.externs, extern{name, typ})
+				}
+				aobj := t.p.info.Defs[a]
+				if aobj == nil {
+					t.unsupported(x, "os.Stat / os.Open result assigned to an existing variable")
+				}
+				var vn string
+				if nm == "Stat" {
+					lv := &lvar{name: "l_" + a.Name, kind: "finfo", fields: map[string]*lvar{}}
+					t.locals[aobj] = lv
+					fr := t.newLocal(nil, a.Name+"_regular", "bool")
+					lv.fields["regular"] = fr
+					lv.forder = []string{"regular"}
+					vn = fr.name
+				} else {
+					vn = t.newLocal(aobj, a.Name, "reader").name
+				}
+				vb := bind(b, "errv")
+				t.fresh++
+				rr := fmt.Sprintf("rr%d", t.fresh)
+				t.guards = append(t.guards, "match ("+name+" "+arg+") with Panic => Crash | "+rr+" =>")
+				return t.wrap(mark, "let '("+vn+", "+vb+") := match "+rr+" with Ok v => (v, None) | Err e => ("+zero+", Some e) | Panic => ("+zero+", None) end in\n  "+next())
+			}
 		}
 		// v, err := f(...) with f another function of the package returning (T, error)
 		if c, isCall := x.Rhs[0].(*ast.CallExpr); isCall {
@@ -5019,6 +5082,16 @@ func (t *fnTr) forStmt(x *ast.ForStmt, rest []ast.Stmt, end func() string) strin
 			}
 		}
 		handlerLoop := false
+		if !isRead && t.handler && first != nil && len(first.Rhs) == 1 && rl == nil {
+			// ... or a file this function opened
+			if c, ok := first.Rhs[0].(*ast.CallExpr); ok {
+				for _, a := range c.Args {
+					if al := t.lvarOf(a); al != nil && al.kind == "reader" {
+						rl = al
+					}
+				}
+			}
+		}
 		if !isRead && t.handler && first != nil && len(first.Rhs) == 1 && rl != nil && rl.kind == "reader" {
 			// for { m, err := f(rdr) ... } with f a package function reading from the reader parameter: the fuel is 2 + the length
 			// of the schedule (a pass that neither consumes an event nor leaves the loop exhausts it: Crash, which the theorems exclude
@@ -5285,7 +5358,7 @@ func constTable(p *pkgInfo, vs *ast.ValueSpec, i int) (string, bool) {
 
 // the functions translated into Pure_gen.v ("Recv.Method" for methods)
 var pureFuncs = []string{"cast", "escapeChars", "parsePath", "getSubKeyMap", "hasSubKeys", "Map.PathForKeyShortest", "valuesForKeyPath", "hasKey", "hasKeyPath", "getLeafNodes",
-	"Map.ValuesForKey", "Map.oldValuesForPath", "Map.ValuesForPath", "Map.LeafNodes", "getJson", "NewMapJsonReader", "NewMapJsonReaderRaw", "Map.Exists", "Map.ValueForPath", "Map.ValueForKey", "Map.LeafPaths", "Map.LeafValues", "valuesForArray", "Map.PathsForKey", "byteReader.ReadByte", "teeReader.ReadByte", "Maps.JsonString", "Maps.JsonStringIndent", "Maps.XmlString", "Maps.XmlStringIndent", "BeautifyXml", "Map.Copy", "Map.Json", "Map.Root", "NewMapXml", "NewMapXmlSeq", "lastKey", "xmlToMapParser", "xmlSeqToMapParser", "Map.JsonWriter", "Map.JsonWriterRaw", "Map.JsonIndentWriter", "Map.JsonIndentWriterRaw", "Map.XmlWriter", "Map.XmlIndentWriter", "MapSeq.XmlWriter", "MapSeq.XmlIndentWriter", "mapToXmlSeqIndent", "pretty.Indent", "pretty.Outdent", "elemListSeq.Less", "marshalMapToXmlIndent", "attrList.Less", "elemList.Less", "NewMapJson", "updateValueForKey", "updateValue", "updateValuesForKeyPath", "Map.UpdateValuesForPath", "prevValueByPath", "remove", "renameKey", "Map.Remove", "Map.RenameKey", "parentPath", "Map.SetValueForPath", "Map.Xml", "Map.XmlIndent", "MapSeq.Xml", "MapSeq.XmlIndent", "AnyXml", "AnyXmlIndent", "marshalJSON", "Map.JsonIndent", "Map.NewMap", "addNewVal", "copyMapShallow", "NewMapGob", "Map.Gob", "HandleXmlReader", "HandleXmlReaderRaw", "HandleJsonReader", "HandleJsonReaderRaw"}
+	"Map.ValuesForKey", "Map.oldValuesForPath", "Map.ValuesForPath", "Map.LeafNodes", "getJson", "NewMapJsonReader", "NewMapJsonReaderRaw", "Map.Exists", "Map.ValueForPath", "Map.ValueForKey", "Map.LeafPaths", "Map.LeafValues", "valuesForArray", "Map.PathsForKey", "byteReader.ReadByte", "teeReader.ReadByte", "Maps.JsonString", "Maps.JsonStringIndent", "Maps.XmlString", "Maps.XmlStringIndent", "BeautifyXml", "Map.Copy", "Map.Json", "Map.Root", "NewMapXml", "NewMapXmlSeq", "lastKey", "xmlToMapParser", "xmlSeqToMapParser", "Map.JsonWriter", "Map.JsonWriterRaw", "Map.JsonIndentWriter", "Map.JsonIndentWriterRaw", "Map.XmlWriter", "Map.XmlIndentWriter", "MapSeq.XmlWriter", "MapSeq.XmlIndentWriter", "mapToXmlSeqIndent", "pretty.Indent", "pretty.Outdent", "elemListSeq.Less", "marshalMapToXmlIndent", "attrList.Less", "elemList.Less", "NewMapJson", "updateValueForKey", "updateValue", "updateValuesForKeyPath", "Map.UpdateValuesForPath", "prevValueByPath", "remove", "renameKey", "Map.Remove", "Map.RenameKey", "parentPath", "Map.SetValueForPath", "Map.Xml", "Map.XmlIndent", "MapSeq.Xml", "MapSeq.XmlIndent", "AnyXml", "AnyXmlIndent", "marshalJSON", "Map.JsonIndent", "Map.NewMap", "addNewVal", "copyMapShallow", "NewMapGob", "Map.Gob", "HandleXmlReader", "HandleXmlReaderRaw", "HandleJsonReader", "HandleJsonReaderRaw", "NewMapsFromJsonFile", "NewMapsFromXmlFile"}
 
 // joinMode: functions translated in join mode (see branching): the statements after an if / switch are translated
 // once instead of into every branch.  The continuation-passing translation of the other functions is kept as it is
